@@ -171,15 +171,21 @@ PROPS: Dict[str, Dict[str, Any]] = {
                           "hand-modelled, correspondence only",
             "stream": "core", "opts": {"salt": "c05", "gen": ["streams", "gen_wrapper_case"]},
             "quick_n": 6000, "thorough_n": 100000, "fields": ["out", "trace"]},
-    "C06": {"modules": ["KodaModel.Properties.C06", "KodaModel.Properties.C06Sync"],
-            "level_note": "C06_agree: for every tree and fuel, when the sync call does not raise its guard error both modes return "
+    "C06": {"modules": ["KodaModel.Properties.C06", "KodaModel.Properties.C06Sync", "KodaModel.Properties.C06Src"],
+            "level_note": "C06_src_*: for every validator whose two methods are translated from the source on each run (scalar "
+                          "pipeline, union loop, list, set, uniform tuple, n-tuple, map, DictValidatorAny, RecordValidator) "
+                          "the *translated* sync method and the *translated* async method agree whenever the sync one does "
+                          "not raise its guard error (children related by Rel) - the src_* theorems composed with the "
+                          "step-level agreement lemmas.  C06_agree: for every tree and fuel, when the sync call does not raise its guard error both modes return "
                           "the same outcome; C06_sync_returns: a tree without async-only checks (afree, judged through the "
                           "environment for Lazy) never raises the guard error in sync mode - every validator kind, any fuel",
             "theorems": ["C06_sync_returns", "PredK_call_noassert", "recordStep_noassert", "mapStep_noassert",
                          "ntupleStep_noassert", "unionStep_noassert", "scalarStep_noassert",
                          "C06_agree", "C06_agree_Run", "C06_never_skipped", "seqStep_noAssert", "loopItems_agree",
                          "recordStep_agree", "unionStep_agree", "mapStep_agree", "ntupleStep_agree", "seqStep_agree",
-                         "run_mono", "Run.unique"], "stream": "core", "opts": {"salt": "c06", "async_rate": 0.12},
+                         "run_mono", "Run.unique", "C06_src_scalar", "C06_src_union", "C06_src_list", "C06_src_set",
+                         "C06_src_utuple", "C06_src_ntuple", "C06_src_map", "C06_src_dictany", "C06_src_record"],
+            "stream": "core", "opts": {"salt": "c06", "async_rate": 0.12},
             "quick_n": 10000, "thorough_n": 300000, "fields": ["out", "trace"]},
     "C14": {"theorems": ["C14_root", "C14_list_later_stage", "scalarStep_prov", "seqStep_prov", "ntupleStep_prov",
                          "mapStep_prov", "recordStep_prov", "unionStep_prov", "maybeStep_prov", "ItemsRun.sound",
